@@ -199,13 +199,57 @@ def oracle_dyn(rec, lines):
     return None
 
 
+def drift_cases(rng, count):
+    """tracked particles under the DRIFT map with higher orders of the momentum compaction (alpha1, alpha2 != 0): the
+    particle must be moved by the displacement field the grid is transported with (interpolated between its two rows)"""
+    recs = []
+    for k in range(count):
+        n = rng.choice([16, 17, 24, 33])
+        it = rng.choice([2, 3, 4])
+        steps = rng.choice([50, 200, 1000])
+        angle = f32(2 * math.pi / steps)
+        shx, shy = rng.uniform(-2, 2), rng.uniform(-2, 2)
+        box = [f32(-6 + shx), f32(6 + shx), f32(-6 + shy), f32(6 + shy), f32(1.2e-3), f32(6.11e5)]
+        e = box + [angle, f32(angle * rng.uniform(-3, 3)), f32(angle * rng.uniform(-30, 30)), f32(1.3e9)]
+        if k % 4 == 0:
+            e[7], e[8] = 0.0, 0.0
+        data = C.data_family(rng, n, 1, "gauss", 2)
+        parts = [(f32(rng.uniform(1, n - 2)), f32(rng.uniform(0, n - 1.001))) for _ in range(6)]
+        cid = "v%d" % k
+        recs.append(dict(id=cid, n=n, parts=parts,
+                         optext="drift %s %d %d 1\nextra %s\ndata %s\nparts %s\nrun\n" % (
+                             cid, n, it, " ".join(f2h(x) for x in e), " ".join(f2h(x) for x in data),
+                             " ".join(f2h(x) for p in parts for x in p))))
+    return recs
+
+
+def oracle_drift(rec, lines):
+    off = corr.hexes_of(lines, "off")
+    got = corr.hexes_of(lines, "parts")
+    if off is None or got is None:
+        return "no output of the drift case"
+    n = rec["n"]
+    o = [h2f(x) for x in off]
+    g = [h2f(x) for x in got]
+    for j, (px, py) in enumerate(rec["parts"]):
+        yi = int(math.floor(py))
+        yf = py - yi
+        want = px - ((1 - yf) * o[yi] + yf * o[yi + 1]) if yi + 1 < n else px
+        want = max(1.0, min(want, n - 1.0))
+        if abs(g[2 * j] - want) > 1e-4 * (1 + abs(want)) or g[2 * j + 1] != py:
+            return ("drift with higher-order momentum compaction: particle %d at (%.4f, %.4f) was moved to x = %.5f, the "
+                    "displacement field of the grid gives %.5f" % (j, px, py, g[2 * j], want))
+    return None
+
+
 def explore(chk, harness, nblob, ntrack, sizes, tag):
     rng = lib.Rng(chk.seed, "C15/" + tag)
     brecs = blob_cases(rng, nblob, sizes)
     trecs = track_cases(rng, ntrack)
     drecs = dyn_cases(rng, max(5, ntrack // 2))
-    optexts = {r["id"]: r["optext"] for r in brecs + trecs + drecs}
-    A, B, mism, drift, san = corr.run_correspondence(chk, harness, {r["id"]: r["optext"] for r in brecs + drecs}, tag)
+    vrecs = drift_cases(rng, max(6, ntrack // 2))
+    optexts = {r["id"]: r["optext"] for r in brecs + trecs + drecs + vrecs}
+    A, B, mism, drift, san = corr.run_correspondence(chk, harness, {r["id"]: r["optext"] for r in brecs + drecs + vrecs}, tag)
     mism = [(cid, d) for cid, d in mism if not any(l.startswith("skip") for l in B.get(cid, []))]
     # tracking statistics: implementation only (PRNG inside the class)
     txt = "".join(r["optext"] for r in trecs)
@@ -226,6 +270,11 @@ def explore(chk, harness, nblob, ntrack, sizes, tag):
         f = oracle_dyn(r, A.get(r["id"], []))
         if f:
             fails.append((r, f))
+    for r in vrecs:
+        f = oracle_drift(r, A.get(r["id"], []))
+        if f:
+            fails.append((r, f))
+    chk.cov["drift_tracking_cases"] = chk.cov.get("drift_tracking_cases", 0) + len(vrecs)
     chk.cov["dynamic_rf_tracking_cases"] = chk.cov.get("dynamic_rf_tracking_cases", 0) + len(drecs)
     return brecs, trecs, optexts, mism, drift, san, fails
 
